@@ -12,9 +12,9 @@ passes=$(go test -vet=off -count=1 -json ./... 2>/dev/null | grep -c '"Action":"
 echo "passes with change: $passes"
 cp $out/demo_test.go $wt/zz_demo_test.go
 go test -vet=off -count=1 -run "TestDemo" ./... > /tmp/wt/demo-with-$id.log 2>&1; with=$?
-git stash -q
+git apply -R /tmp/wt/patch-$id.diff    # (git stash is shared between worktrees: not used)
 go test -vet=off -count=1 -run "TestDemo" ./... > /tmp/wt/demo-without-$id.log 2>&1; without=$?
-git stash pop -q
+git apply /tmp/wt/patch-$id.diff
 rm -f $wt/zz_demo_test.go
 echo "demo with change: exit $with (want != 0); without: exit $without (want 0)"
 mkdir -p /verif/seeded/$name
